@@ -1022,29 +1022,33 @@ func convertVerticallIDToBit(vZoom int64, vIndex int64, outputZoom int64, maxHei
 //	 出力インデックス不正       ：出力altitudekeyが出力ズームレベル(outputZoom)で存在しないインデックス値になった場合。
 func ConvertZToMinMaxAltitudekey(inputIndex int64, inputZoom int64, outputZoom int64, zBaseExponent int64, zBaseOffset int64) (minAltitudeKey int64, maxAltitudeKey int64, err error) {
 
-	// determine the upper and lower index bounds to search for matches in height solution space
-	lowerBound, err := convertZToMinAltitudekey(inputIndex, inputZoom, outputZoom, zBaseExponent, zBaseOffset)
-	if err != nil {
-		return 0, 0, err
-	}
-	upperBound, err := convertZToMinAltitudekey(inputIndex+1, inputZoom, outputZoom, zBaseExponent, zBaseOffset)
+	// the lowest altitudekey that intersects the voxel (this also validates inputIndex)
+	minAltitudeKey, err = convertZToMinAltitudekey(inputIndex, inputZoom, outputZoom, zBaseExponent, zBaseOffset)
 	if err != nil {
 		return 0, 0, err
 	}
 
-	// Determine the vertical index/indices to return.
-	// a) always return the lowerBound index. Regardless of the difference between the inputZoom and outputZoom,
-	// mathematically the altitude associated with the lower bounds will always satisfy the solution set.
-	// b) cycle through indices from lowerBounds+1 to upperBounds with i to find any possible additional indexes
-	// that satisfy the solution set.
-	// but only output (minimum key, maximum key) as (lowerBound, upperBound - 1)
-	minAltitudeKey = lowerBound
-	maxAltitudeKey = upperBound - 1
-	if minAltitudeKey > maxAltitudeKey {
-		return minAltitudeKey, minAltitudeKey, nil
+	// the highest altitudekey that intersects the voxel: the last key that starts below the voxel's top.
+	// The top altitude (exclusive) is expressed, together with zBaseOffset, in units of 1m (inputZoom <= 25)
+	// or of the voxel height (inputZoom > 25), so that it is an integer, and is scaled to outputZoom rounding up.
+	// It is not an index of the input voxel, so it is neither validated as one nor used as a key by itself.
+	var topAltitude, shift int64
+	if inputZoom <= consts.ZOriginValue {
+		topAltitude = common.CalculateArithmeticShift(inputIndex+1, consts.ZOriginValue-inputZoom) + zBaseOffset
+		shift = outputZoom - zBaseExponent
 	} else {
-		return minAltitudeKey, maxAltitudeKey, nil
+		topAltitude = inputIndex + 1 + common.CalculateArithmeticShift(zBaseOffset, inputZoom-consts.ZOriginValue)
+		shift = outputZoom - zBaseExponent - (inputZoom - consts.ZOriginValue)
 	}
+	// ceil(topAltitude * 2^shift) - 1
+	maxAltitudeKey = -common.CalculateArithmeticShift(-topAltitude, shift) - 1
+
+	// Check to make sure maxAltitudeKey exists in the output system
+	if _, ok := validateIndexExists(maxAltitudeKey, outputZoom, false); !ok {
+		return 0, 0, errors.NewSpatialIdError(errors.InputValueErrorCode, "output index does not exist with given outputZoom, zBaseExponent, and zBaseOffset")
+	}
+
+	return minAltitudeKey, maxAltitudeKey, nil
 }
 
 func convertZToMinAltitudekey(inputIndex int64, inputZoom int64, outputZoom int64, zBaseExponent int64, zBaseOffset int64) (int64, error) {
